@@ -150,6 +150,14 @@ CLAIMED['C03'] = dict(
          'cultures, multipliers/fractions/powers, sign words and numerals beyond 15 digits are outside. ' + NOTE_COMMON,
     design='§5/C03')
 
+CLAIMED['C04'] = dict(
+    technique='symbolic execution (symx + z3) of the real cardinal/ordinal token arithmetic on token shapes with symbolic number-word values',
+    text=SX + 'BaseNumberParser.__get_int_value runs with the real English maps on token lists in which every number word is a placeholder with a symbolic value (ones, teens, '
+         'tens), so each token shape (groups units..trillion, with/without "and", cardinal or ordinal last word) is decided for all its numbers at once. The shapes are '
+         'validated against the real tokenising regex on a concrete standard spelling each.',
+    note='English only; the extraction regexes and the merged-number grouping are outside; quick covers one- and two-group shapes, thorough adds three-group shapes. ' + NOTE_COMMON,
+    design='§5/C04')
+
 NOT_APPLICABLE = {
     'C18': 'ground equality of ~50 concrete generated files against concrete YAML: no quantified variable for a solver to range over; '
            'deciding it is executing the generator (whose dependency ruamel.yaml is absent from every usable interpreter)',
